@@ -11,8 +11,9 @@ META = {
                  "and with the repaired defects seeded back; every TLC-generated call sequence replayed into lopdf; recorded lopdf call sequences validated by "
                  "Trace_Security (declarative Judge + impl-shaped Step)",
     "text": "TLC explores every sequence (depth <= 5 quick / 7 thorough) of MakeState, Encrypt, Decrypt(pw), AuthUser/AuthOwner/Auth(pw), Save, "
-            "Load over small documents (strings nested in arrays/dictionaries, binary/empty/Metadata/XRef streams, strings in stream "
-            "dictionaries, Crypt overrides in all forms) x {V1, V2 x key lengths, V4 x {RC4,AES128,Identity}^2 x EncryptMetadata, R5, V5} x "
+            "Load, Edit over small documents (strings nested in arrays/dictionaries, binary/empty/Metadata/XRef streams, strings in stream "
+            "dictionaries, Crypt overrides in all forms, documents in the state load_mem leaves of a file with object streams and an xref "
+            "stream: /ObjStm containers next to their unpacked members, the /XRef stream object; edits of the unencrypted document) x {V1, V2 x key lengths, V4 x {RC4,AES128,Identity}^2 x EncryptMetadata, R5, V5} x "
             "password pairs/offers of the classes empty, ASCII, non-Latin, >32 bytes, >127 bytes, owner=user. The impl-shaped layer "
             "transcribes encrypt_object/decrypt_object, EncryptionState::try_from/decode, authenticate_*, and the loader's auto-decrypt over "
             "symbolic payloads (Ct/Dec cancellation law); the declarative layer Judge states Restored, Hidden (ISO rule IsoSubject/IsoMethod), "
@@ -22,7 +23,8 @@ META = {
     "note": "Trusted: TLC; the perfect-cipher algebra (C06 removes it); the reading of ISO 32000-2 7.6 in IsoSubject/IsoMethod; the harness's own "
             "canonical forms of passwords (PDFDocEncoding/32 bytes, UTF-8/127 bytes on alphabets where SASLprep is the identity). Exhaustive only "
             "within the model bounds; beyond that sampled. Not decided: cryptographic strength, permissions, acceptance of merely equivalent "
-            "passwords, ObjStm expansion after decrypt, decrypt_raw.",
+            "passwords, decrypt_raw called directly, edits that delete or add objects (a deleted object-stream member comes back on decrypt: "
+            "lopdf issue 160, outside the statement), encrypted files with object streams written by other producers (C06).",
     "bins": ["c05"],
     "modules": ["MC_Security.tla", "Trace_Security.tla"],
     "design_ref": "DESIGN.md section 4 C05",
@@ -33,8 +35,12 @@ META = {
 # All five are repaired (fix: 44ea712 h12, 48a6296 h13, 4d4c742 t127, 54b8438 dparr, 9164604 mdict); the tags are computed
 # by the declarative Judge from the input class, so a defect that comes back is reported under its old signature.
 # (C05_DEV="h12:1,h13:1" overrides for experiments against a scratch worktree that lacks a fix.)
-DEV = {"h12": False, "h13": False, "t127": False, "mdict": False, "dparr": False}
-DEV_TAG = {"h12": "owner.R234.key", "h13": "streamdict.string", "t127": "pw.gt127.R56", "mdict": "metadata.nonstream", "dparr": "crypt.dparray"}
+# (osrep was never a defect of the code: "Decrypt's re-expansion of object streams replaces live objects" is a seeded
+# change the check missed before documents in the loaded-from-object-streams state and Edit were modelled.)
+DEV = {"h12": False, "h13": False, "t127": False, "mdict": False, "dparr": False, "osrep": False}
+DEV_TAG = {"h12": "owner.R234.key", "h13": "streamdict.string", "t127": "pw.gt127.R56", "mdict": "metadata.nonstream", "dparr": "crypt.dparray",
+           "osrep": "restored.objstm.member"}
+FILE_DOCS = ("D5", "D6")   # MC_Security!FileDocs: documents given in the state a loader leaves
 
 
 def dev_flags():
@@ -56,7 +62,7 @@ def with_dev(cfg_name, w, flags):
     return p
 
 
-ACTIONS = ["MakeStateH", "EncryptH", "SaveH", "LoadH", "DecryptH", "AuthUserH", "AuthOwnerH", "AuthH"]
+ACTIONS = ["MakeStateH", "EncryptH", "SaveH", "LoadH", "DecryptH", "AuthUserH", "AuthOwnerH", "AuthH", "EditH"]
 
 TOK = {"E": "", "A": "user", "B": "owner", "W": "nope", "N": "пароль", "N2": "密碼",
        "L1": "a" * 32 + "TAIL1", "L2": "a" * 32 + "tail2", "S32": "a" * 32,
@@ -143,7 +149,7 @@ def detail_of(reset, calls, upto, inputs=None):
     d = {"cfg": {k: reset["cfg"][k] for k in ("V", "R", "klen", "em", "cf", "stmf", "strf")},
          "empty_password_relation": reset["cfg"]["e"],
          "calls": [{"call": c["call"], "rel": c["rel"], "res": c["res"], "tag": c.get("tag", ""), "tenc": c["tenc"], "nobj": c["nobj"], "same": c["same"],
-                    "pw": c.get("pw", c.get("tok", "")),
+                    "pw": c.get("pw", c.get("tok", "")), "pos": c.get("pos", 0),
                     "items_not_equal_plaintext": [[i + 1, it["kind"], it["len"], "in-stream-dict" if it["insd"] else "", it["otyp"], it["crypt"]["f"], it["crypt"]["n"]]
                                                   for i, it in enumerate(c["items"]) if not it["eq"]][:12],
                     "items_equal_plaintext": sum(1 for it in c["items"] if it["eq"])} for c in calls[:upto + 1]][-6:]}
@@ -210,9 +216,9 @@ def triage(chk, events, verdicts, inputs_by_case=None, predicted=None):
 def synth_trace():
     """a conforming run written by hand (V5, AES256 strings and streams, passwords user/owner) for the negative controls"""
     def it(kind, ln, eq, insd=False, otyp="-", crypt="none"):
-        return {"kind": kind, "insd": insd, "otyp": otyp, "inmd": False, "crypt": {"f": crypt, "n": ""}, "len": ln, "present": True, "eq": eq}
+        return {"kind": kind, "insd": insd, "otyp": otyp, "inmd": False, "osm": ln == 5, "crypt": {"f": crypt, "n": ""}, "len": ln, "present": True, "eq": eq}
     objs = [{"k": "dict", "typ": "-", "v": [{"k": "str", "pid": 1, "len": 20}, {"k": "arr", "v": [{"k": "str", "pid": 2, "len": 5}]}]},
-            {"k": "stream", "typ": "-", "crypt": {"f": "none", "n": ""}, "d": [], "pid": 3, "len": 40}]
+            {"k": "stream", "typ": "-", "crypt": {"f": "none", "n": ""}, "d": [], "pid": 3, "len": 40, "mem": []}]
     cfg = {"V": 5, "R": 6, "klen": 256, "em": True, "cf": [["F1", "AES256"], ["F2", "AES256"]], "stmf": "F1", "strf": "F2",
            "ulen": 4, "olen": 5, "e": {"u": "diff", "o": "diff"}, "nobj0": 2}
     plain = [it("str", 20, True), it("str", 5, True), it("stream", 40, True)]
@@ -220,7 +226,7 @@ def synth_trace():
     no = {"u": "diff", "o": "diff"}
 
     def call(name, rel, res, tenc, nobj, same, items):
-        return {"ev": "Call", "case": 1, "call": name, "rel": rel, "res": res, "tag": res, "tenc": tenc, "nobj": nobj, "same": same, "items": copy.deepcopy(items)}
+        return {"ev": "Call", "case": 1, "call": name, "pos": 0, "rel": rel, "res": res, "tag": res, "tenc": tenc, "nobj": nobj, "same": same, "items": copy.deepcopy(items)}
     return [{"ev": "Reset", "case": 1, "cfg": cfg, "objs": objs, "nitems": 3},
             call("MakeState", no, "Ok", False, 2, True, plain),
             call("Encrypt", no, "Ok", True, 3, False, enc),
@@ -234,6 +240,7 @@ def synth_trace():
 NEGATIVES = [
     ("restored.content", lambda t: t[7]["items"][0].update(eq=False)),
     ("restored.content", lambda t: t[7]["items"][2].update(present=False, eq=False)),
+    ("restored.objstm.member", lambda t: t[7]["items"][1].update(eq=False)),   # only items of object-stream members come back wrong
     ("restored.encdict", lambda t: t[7].update(tenc=True)),
     ("restored.encdict", lambda t: t[7].update(nobj=3)),
     ("either.rejected", lambda t: t[7].update(res="Err", tenc=True, nobj=3, same=True, items=t[6]["items"])),
@@ -350,9 +357,9 @@ def run(tier):
         seqs.setdefault(key(g), []).append(g)
     cases = []
     for k, gs in seqs.items():
-        sigs = {tuple((c["call"], c["tok"]) for c in g["calls"]) for g in gs}
+        sigs = {tuple((c["call"], c["tok"], c["pos"]) for c in g["calls"]) for g in gs}
         for g in gs:
-            s = tuple((c["call"], c["tok"]) for c in g["calls"])
+            s = tuple((c["call"], c["tok"], c["pos"]) for c in g["calls"])
             # a sequence that is a proper prefix of another emitted one is replayed as part of that one
             if not any(len(o) > len(s) and o[:len(s)] == s for o in sigs):
                 cases.append(g)
@@ -362,10 +369,15 @@ def run(tier):
         good = [g for g in cases if not any(not c["ok"] for c in g["calls"])]
         rnd.shuffle(bad)
         rnd.shuffle(good)
+        # the loaded-from-file documents (with edits) are always represented
+        filed = [g for g in good if g["cfg"]["dn"] in FILE_DOCS and any(c["call"] == "Edit" for c in g["calls"])]
+        good = filed[:900] + [g for g in good if g not in filed[:900]]
         cases = bad[:1200] + good[:2500 - min(len(bad), 1200)]
     cin, cout = os.path.join(w, "gen.ndjson"), os.path.join(w, "gen.out.ndjson")
     write_ndjson(cin, [{"cfg": g["cfg"], "user": TOK[g["cfg"]["user"]], "owner": TOK[g["cfg"]["owner"]], "objs": docs[g["cfg"]["dn"]],
-                        "calls": [dict({"call": c["call"], "tok": c["tok"]}, **({"pw": TOK[c["tok"]]} if c["call"] in ("Decrypt", "AuthUser", "AuthOwner", "Auth") else {}))
+                        "prep": "file" if g["cfg"]["dn"] in FILE_DOCS else "mem",
+                        "calls": [dict({"call": c["call"], "tok": c["tok"], "pos": c["pos"]},
+                                       **({"pw": TOK[c["tok"]]} if c["call"] in ("Decrypt", "AuthUser", "AuthOwner", "Auth") else {}))
                                   for c in g["calls"]]} for g in cases])
     run_bin("c05", ["replay", "--in", cin, "--out", cout, "--seed", vlib.seed(), "--threads", 4 if quick else 12])
     gevs = read_ndjson(cout)
@@ -377,7 +389,7 @@ def run(tier):
     pred = {i + 1: g["calls"] for i, g in enumerate(cases)}
     gseen, gdrift = triage(chk, gevs, gvs, None, pred)
     for i, g in enumerate(cases):
-        chk.case(json.dumps([key(g), [(c["call"], c["tok"]) for c in g["calls"]]]) if any(c["call"] == "Encrypt" for c in g["calls"]) else None)
+        chk.case(json.dumps([key(g), [(c["call"], c["tok"], c["pos"]) for c in g["calls"]]]) if any(c["call"] == "Encrypt" for c in g["calls"]) else None)
     chk.extra["replayed_behaviours"] = len(cases)
     chk.extra["generated_behaviours"] = len(gen)
     have = {cfg_class(g["cfg"]) for g in cases}
@@ -389,9 +401,26 @@ def run(tier):
     for g in cases:
         for c in g["calls"]:
             expected |= set(c["tags"])
-    for t in ("ok-restored", "ok-rejected", "ok-loaded-enc", "ok-loaded-autodecrypted", "ok-auth", "ok-auth-rejected", "ok"):
+    for t in ("ok-restored", "ok-rejected", "ok-loaded-enc", "ok-loaded-autodecrypted", "ok-auth", "ok-auth-rejected", "ok", "ok-edit"):
         if t not in expected:
             raise vlib.ToolError("vacuous replay: no replayed sequence contains a call the model judges %s" % t)
+    # ... and the loaded-from-object-streams class: a member of a container is edited, then encrypted and decrypted in memory
+    def member_roundtrip(g):
+        if g["cfg"]["dn"] != "D5":
+            return False
+        st = 0
+        for c in g["calls"]:
+            if c["call"] == "Edit" and c["pos"] == 1 and st == 0:
+                st = 1
+            elif c["call"] == "Encrypt" and st == 1:
+                st = 2
+            elif c["call"] == "Load" and st >= 1:
+                st = 0
+            elif c["call"] == "Decrypt" and st == 2 and "ok-restored" in c["tags"]:
+                return True
+        return False
+    if not any(member_roundtrip(g) for g in cases):
+        raise vlib.ToolError("vacuous replay: no sequence edits an object-stream member and round-trips it in memory")
     mid = cases[len(cases) // 2]
     chk.sample({"generated": {"cfg": mid["cfg"]["name"], "user": mid["cfg"]["user"], "owner": mid["cfg"]["owner"], "doc": mid["cfg"]["dn"],
                               "calls": [[c["call"], c["tok"], c["res"], sorted(c["tags"])] for c in mid["calls"]]}})
@@ -400,13 +429,27 @@ def run(tier):
     # ------------- (V) recorded random runs
     chk.states += rd
     chk.transitions += rg
-    inputs = {r["case"]: {"cfg": r["cfg"], "user": r["user"], "owner": r["owner"], "calls": r["calls"], "seed": r["seed"], "doc": r["doc"]} for r in rins}
+    inputs = {r["case"]: {k: r[k] for k in ("cfg", "user", "owner", "calls", "seed", "prep", "doc", "file") if k in r} for r in rins}
     rseen, rdrift = triage(chk, revs, rvs, inputs, None)
     rruns = runs_of(revs)
     if len(rruns) != nrec:
         raise vlib.ToolError("recorder lost runs")
     cfgs, pws, itemcls = set(), set(), set()
     for reset, calls in rruns:
+        itemcls.add("prep." + reset["prep"])
+        members = {p for o in reset["objs"] if o["k"] == "stream" for p in o["mem"]}
+        st = 0
+        for c in calls:   # an object-stream member edited, then encrypted and decrypted with a right password in memory
+            if c["call"] == "Edit" and c["pos"] in members and c["res"] == "Ok" and st == 0:
+                st = 1
+            elif c["call"] == "Encrypt" and st == 1:
+                st = 2
+            elif c["call"] == "Load" and st >= 1:
+                st = 0
+            elif c["call"] == "Decrypt" and st == 2 and "same" in (c["rel"]["u"], c["rel"]["o"]):
+                itemcls.add("member.edit.roundtrip")
+            if c["call"] == "Edit" and c["res"] == "Ok":
+                itemcls.add("edit")
         cfgs.add(cfg_class(reset["cfg"]))
         u, o = "".join(map(chr, reset["user"])), "".join(map(chr, reset["owner"]))
         pws |= pw_class(u) | pw_class(o) | ({"owner=user"} if u == o else set())
@@ -424,8 +467,13 @@ def run(tier):
                     itemcls.add("empty." + itm["kind"])
                 if itm["len"] >= 16 and not itm["insd"]:
                     itemcls.add("long." + itm["kind"])
+                if itm["otyp"] == "ObjStm":
+                    itemcls.add("objstm.container")
+                if itm["osm"]:
+                    itemcls.add("objstm.member")
     missing = (need - cfgs) | ({"empty", "ascii", "non-latin", "gt32", "gt127", "owner=user"} - pws) | \
-              ({"streamdict", "metadata", "crypt.name", "crypt.arr", "crypt.nodp", "crypt.noname", "empty.str", "empty.stream", "long.str", "long.stream"} - itemcls)
+              ({"streamdict", "metadata", "crypt.name", "crypt.arr", "crypt.nodp", "crypt.noname", "empty.str", "empty.stream", "long.str", "long.stream",
+                "prep.mem", "prep.file-objstm", "prep.file-xrefstm", "objstm.container", "objstm.member", "edit", "member.edit.roundtrip"} - itemcls)
     if missing:
         raise vlib.ToolError("vacuous trace set: classes never recorded: %s" % sorted(missing))
     # anti-vacuity from the inputs: the call patterns that exercise each clause were driven
